@@ -102,7 +102,7 @@ func (fw *CPTVFileRecorder) StartRecording(background *cptvframe.Frame, tempThre
 	} else {
 		leptondController.SetAutoFFC(false)
 	}
-	filename := filepath.Join(fw.outputDir, newRecordingTempName())
+	filename := filepath.Join(fw.outputDir, newRecordingTempName(fw.outputDir))
 	if fw.constantRecorder {
 		log.Printf("constant recording started: %s", filename)
 	} else {
@@ -157,8 +157,18 @@ func (fw *CPTVFileRecorder) WriteFrame(frame *cptvframe.Frame) error {
 	return fw.writer.WriteFrame(frame)
 }
 
-func newRecordingTempName() string {
-	return time.Now().Format("20060102.150405.000." + cptvTempExt)
+// newRecordingTempName returns a name that is not in use in dir. Recordings are named by their start time to
+// the millisecond and a motion recording and a test recording can start while the same frame is being processed.
+func newRecordingTempName(dir string) string {
+	for {
+		name := time.Now().Format("20060102.150405.000." + cptvTempExt)
+		_, tempErr := os.Stat(filepath.Join(dir, name))
+		_, finalErr := os.Stat(filepath.Join(dir, recordingFinalName(name)))
+		if os.IsNotExist(tempErr) && os.IsNotExist(finalErr) {
+			return name
+		}
+		time.Sleep(time.Millisecond)
+	}
 }
 
 func renameTempRecording(tempName string) (string, error) {
